@@ -84,8 +84,8 @@ Print Assumptions C20_list_total.
    decidable and evaluated by the shards: a case accepted by a shard (c20_check_covered) is within the scope of
    C20_oracle_sound, or the oracle has already rejected it.  For request cases c20_check compares the observed
    outcome class, allocation, list answer, handler emissions, health and progress with what the model predicts;
-   C20_oracle_sound then rests on C20_handle_p_no_panic (the model never predicts a panic).  KSeq and KCancel are
-   model-validation cases: their oracle is constantly None. *)
+   C20_oracle_sound then rests on C20_handle_p_no_panic (the model never predicts a panic).  KSeq is a
+   model-validation case (oracle constantly None); KCancel carries the signature of finding C20-F1. *)
 Theorem C20_validb_sound : forall gn t c, c20_validb gn t c = true -> c20_valid gn t c.
 Proof. exact c20_validb_sound. Qed.
 Print Assumptions C20_validb_sound.
@@ -94,6 +94,22 @@ Theorem C20_covered_scope : forall gn t c,
   c20_check_covered gn t c = true -> c20_oracle gn t c = None -> c20_valid gn t c.
 Proof. exact c20_covered_scope. Qed.
 Print Assumptions C20_covered_scope.
+
+(* Finding C20-F1 (open).  Full-strength statement: the etcd watch server answers every watch with exactly one
+   Canceled response.  The faithful model refutes it: a watch that the client cancels gets two (one from the stream
+   loop on the WatchCancelRequest, one when the watch goroutine ends); without a client cancel it gets one.  The
+   duplicate is what makes etcd clientv3 v3.5.2 panic (`close of closed channel`) inside a follower's etcd proxy. *)
+Definition C20_watch_cancel_once_full_statement : Prop := forall cc, watch_cancel_responses true cc = 1.
+Theorem C20_watch_cancel_once_refuted : exists cc, 1 < watch_cancel_responses true cc.
+Proof. exact watch_cancel_once_refuted. Qed.
+Print Assumptions C20_watch_cancel_once_refuted.
+Theorem C20_watch_cancel_once_except_F1 : forall cc, cc = false -> watch_cancel_responses true cc = 1.
+Proof. exact watch_cancel_once_except_client_cancel. Qed.
+Print Assumptions C20_watch_cancel_once_except_F1.
+Theorem C20_cancel_oracle_signature : forall gn t cc n,
+  c20_check t (KCancel cc n) = true -> c20_oracle gn t (KCancel cc n) = if cc then Some 1 else None.
+Proof. exact c20_cancel_oracle_signature. Qed.
+Print Assumptions C20_cancel_oracle_signature.
 
 (* The watch-liveness probe and the slow-client scenario are the image of two theorems of C05's model of the
    watcher hub (Model/WatchSys.v), cited here: a subscriber whose buffer was found full is closed and unregistered
